@@ -58,6 +58,9 @@ func (x *Exec) execCall(fc *frameCtx, st *State, i *ssa.Call) Val {
 
 func (x *Exec) callFunction(fc *frameCtx, st *State, i *ssa.Call, callee *ssa.Function, args []Val) Val {
 	pkg := funcPkgPath(callee)
+	if x.onCall != nil {
+		x.onCall(st, callee, args)
+	}
 	if callee.Name() == "init" && callee.Signature.Recv() == nil && callee.Signature.Params().Len() == 0 {
 		return nil // initialiser of an imported package: cannot reference the importing package's state
 	}
